@@ -57,3 +57,5 @@ Example C08_pin_getIdentifiesFromRow : Source.src_getIdentifiesFromRow = SourceS
 Proof. exact SourcePins.pin_getIdentifiesFromRow. Qed.
 Example C08_pin_newColumnData : Source.src_newColumnData = SourceSnapshot.src_newColumnData.
 Proof. exact SourcePins.pin_newColumnData. Qed.
+Example C08_pin_printTimestamp : Source.src_printTimestamp = SourceSnapshot.src_printTimestamp.
+Proof. exact SourcePins.pin_printTimestamp. Qed.
